@@ -77,17 +77,107 @@ PLAN = e1prop.Plan('C12', ROWS, cfgs=('v6', 'v7', 'v6-nosec', 'v7-virt', 'v7-vms
                    hooked=(False, True))
 
 
+def shard_roundtrip(seed, count):
+    """reference-free: interrupt a generated program state with each exception kind, run the canonical return from a handler placed at
+    the vector; the interrupted program's CPSR, registers and PC must be intact (only the handler mode's LR/SPSR may differ)"""
+    import random
+    from vf import e1, target
+    from vf.runner import Acc
+    acc = Acc()
+    rng = random.Random(seed)
+    for _ in range(count):
+        cfgname = rng.choice(('v6', 'v7', 'v6-nosec'))
+        thumb = rng.random() < 0.5
+        kind = rng.choice(('irq', 'fiq', 'svc', 'undef', 'dabort'))
+        te = rng.getrandbits(1)
+        it = rng.choice(gen.IT_STATES) if (thumb and rng.random() < 0.5) else 0
+        if kind in ('svc', 'undef', 'dabort') and it:
+            # the triggering instruction must execute: use an IT state whose condition is AL-like by fixing the flags below
+            pass
+        if thumb:
+            trig = {'svc': e1.enc_thumb(0xDF05), 'undef': e1.enc_thumb(0xDE01), 'dabort': e1.enc_thumb(0x6838)}.get(kind, b'\x00\xbf')   # LDR r0,[r7]
+            code = trig + b'\x00\xbf' * 6
+        else:
+            trig = {'svc': e1.enc_arm(0xEF000005), 'undef': e1.enc_arm(0xE7F000F0), 'dabort': e1.enc_arm(0xE5970000)}.get(kind, e1.enc_arm(0xE1A00000))
+            code = trig + e1.enc_arm(0xE1A00000) * 4
+        mode = rng.choice(('usr', 'sys', 'svc', 'irq', 'abt', 'und', 'fiq'))
+        hmode = {'irq': 'irq', 'fiq': 'fiq', 'svc': 'svc', 'undef': 'und', 'dabort': 'abt'}[kind]
+        if mode == hmode:
+            mode = 'usr'
+        case = gen.step_case(rng, cfgname, thumb, code, mode=mode, it=it, e=rng.choice((0, 0, 1)), mpu=False, code_base=0x8000)
+        st_ = case['state']
+        st_['sctlr'] = (st_['sctlr'] & ~((1 << 30) | (1 << 13) | (1 << 24) | (1 << 27))) | (te << 30) | 2        # A=1: unaligned r7 aborts
+        st_['vbar'] = 0
+        if 'scr' in st_:
+            st_['scr'] = 0
+        st_[gen.bank_key(7, mode)] = 0x60000001
+        if it and kind in ('svc', 'undef', 'dabort'):
+            # make the current IT condition pass
+            from vf.props.c05 import passing_flags
+            st_['cpsr'] = (st_['cpsr'] & 0x0FFFFFFF) | (passing_flags(rng, it >> 4) << 28)
+        # handler: the canonical return of that exception
+        sub = {'irq': 4, 'fiq': 4, 'svc': 0, 'undef': 0, 'dabort': 8}[kind]
+        ret = e1.enc_thumb(0xF3DE8F00 | sub, True) if te else e1.enc_arm(0xE25EF000 | sub)
+        vec = {'irq': 0x18, 'fiq': 0x1C, 'svc': 0x08, 'undef': 0x04, 'dabort': 0x10}[kind]
+        case['poke'].append([vec, ret.hex()])
+        cpu = e1.build(case)
+        pre = target.snapshot(cpu)
+        if kind == 'irq':
+            cpu.registers.take_physical_irq_exception()
+            exc = None
+        elif kind == 'fiq':
+            cpu.registers.take_physical_fiq_exception()
+            exc = None
+        else:
+            exc = target.step_budget(cpu)
+        mid = target.snapshot(cpu, False)
+        exc2 = target.step_budget(cpu)          # the return instruction
+        post = target.snapshot(cpu)
+        entered = (mid['cpsr'] & 31) == gen.MODES[hmode] and mid['R.PC'] == vec
+        # expected resume point and CPSR
+        want = dict(pre)
+        ilen = 2 if thumb else 4
+        if kind in ('irq', 'fiq'):
+            pass                                                   # resumes exactly where it was
+        elif kind == 'dabort':
+            pass                                                   # LR-8 re-executes the aborting instruction
+        else:
+            want['R.PC'] = (pre['R.PC'] + ilen) & 0xFFFFFFFF
+            if kind == 'svc' and it:
+                # SVC advances the IT state before it is saved
+                from vf.ref.machine import Machine
+                from vf import diff
+                M = Machine(pre, [], diff.full_cfg(case['cfg']))
+                M.it_advance()
+                want['cpsr'] = M.s['cpsr']
+        ignore = {'R.LR' + hmode, 'spsr_' + hmode, 'dfsr', 'dfar'}
+        d = {k: (want[k], post[k]) for k in post if k not in ignore and want.get(k) != post[k]}
+        acc.case(bool(thumb or it or (pre['cpsr'] >> 28)), ('rt', kind, cfgname, mode, thumb, it, te, pre['cpsr']), cls='roundtrip:' + kind,
+                 sample={'kind': kind, 'config': cfgname, 'interrupted_mode': mode, 'thumb': thumb, 'itstate': it, 'thumb_handler': te})
+        if exc is not None or exc2 is not None:
+            acc.violation('C12:roundtrip:%s:host-error' % kind, case, {'exc': repr(exc or exc2)})
+        elif not entered:
+            acc.violation('C12:roundtrip:%s:not-entered' % kind, case, {'mode_after_entry': mid['cpsr'] & 31, 'pc': mid['R.PC']})
+        elif d:
+            acc.violation('C12:roundtrip:%s:%s' % (kind, e1prop.sig(d)), dict(case, roundtrip=kind), {'not_restored(expected,observed)': e1.fmt_diff(d)})
+    return acc
+
+
 def run(ctx):
     ctx.rule = ('Hypothesis draws (MSR reg/imm application+system with all 16 byte masks, MRS, CPS, SETEND, SUBS PC,LR (A1/A2/T1), ERET, RFE, LDM^ '
                 'with PC, SVC, SMC, BKPT, UDF, NOP/YIELD/WFE/WFI/SEV, CLREX/DSB/ISB, PLD, MCR/MRC/MCRR/MRRC/CDP/LDC/STC for every coprocessor; field bits; '
                 'entropy; config with/without security and virtualization); written values attempt forbidden changes (A/I/F/M from User mode, T/J/IT, '
                 'reserved and illegal modes, Monitor/FIQ/Hyp from Non-secure), SPSRs / stacked images are plausible PSRs, CPACR/NSACR/HCPTR random; '
                 'stock and hooked targets; emulate_cycle() is compared with the reference machine on the complete snapshot (incl. event register, '
-                'wait flags and the words sent to the coprocessor). Non-trivial: condition passed and state other than PC changed.')
+                'wait flags and the words sent to the coprocessor). Non-trivial: condition passed and state other than PC changed. Plus a reference-free round trip: '
+                'a generated interrupted state (ARM/Thumb, any mode, mid-IT block, any flags, E) is interrupted by IRQ/FIQ (between steps) or SVC/UDF/an '
+                'aborting load, the handler at the vector executes the canonical return (SUBS PC,LR,#n from ARM or Thumb handler state) and the interrupted '
+                'CPSR, every register and the resume PC must be intact.')
     ctx.technique = 'property-based differential testing against an independent reference interpreter (Hypothesis-driven generation)'
     ctx.assumptions = ['vf/ref (tables + sem_sys.py + machine.py PSR-write rules) is a faithful reading of DDI 0406C',
                        'cp14/cp15 register decode is a documented mock hook and is not modelled', 'HSR.IL is not compared']
     e1prop.run_plan(ctx, 'vf.props.c12:PLAN', PLAN, shards=32, quick=600, thorough=10000)
+    ctx.pmap(shard_roundtrip, [(ctx.shard_seed(500 + i), ctx.n(700, 15000)) for i in range(8)])
 
 
 def replay(case, bucket=None):
